@@ -278,6 +278,11 @@ class Context:
         goal = lift(goal)
         if not isinstance(goal, SBool):
             raise TypeError("prove needs a boolean goal")
+        if _ring_valid(goal.t):
+            # the goal is a conjunction of polynomial identities that hold by the commutative-ring
+            # axioms alone (exact sum-of-monomials normal form); no solver call needed
+            STATS["ring_proofs"] = STATS.get("ring_proofs", 0) + 1
+            return "proved", None
         r, s = self.check_sat(list(extra_assumptions) + [z3.Not(goal.t)], timeout_ms)
         if r == z3.unsat:
             return "proved", None
@@ -290,6 +295,22 @@ class Context:
         s = self._solver(1000)
         s.add(z3.Not(lift(goal).t))
         return s.to_smt2()
+
+
+def _ring_valid(t):
+    from . import poly
+    try:
+        if z3.is_true(t):
+            return True
+        if z3.is_and(t):
+            return all(_ring_valid(c) for c in t.children())
+        if z3.is_eq(t):
+            a, b = t.children()
+            if z3.is_arith(a) and z3.is_arith(b):
+                return poly.is_zero(a - b)
+    except Exception:
+        return False
+    return False
 
 
 def model_value(m, x):
